@@ -590,3 +590,125 @@ func controlWriterRules(c *Ctx, prop string) {
 		c.verdict(rule, rule+"/"+ctor, c.P.FuncPos(f), uniq(problems), fmt.Sprintf("%d cells: limit <= 125 and <= inner buffer", len(res)))
 	}
 }
+
+// writerGrowRules folds Writer.Grow on concrete buffers: the buffered bytes
+// survive at their place behind the (possibly larger) header reservation, the
+// reservation is the one the new size calls for, at least n more bytes fit,
+// nothing happens when they already fit.
+func writerGrowRules(c *Ctx, prop string) {
+	rule := prop + ".writer-grow"
+	c.R.Rule(rule, 1, "Grow keeps the buffered bytes, re-reserves the header space for the new size and makes room for n more bytes")
+	L := c.writerLayout(rule)
+	f := c.method(rule, wsutil, "Writer", "Grow")
+	if L == nil || f == nil {
+		return
+	}
+	type job struct {
+		client   bool
+		raw, n   int
+		grow     int
+		extended bool
+	}
+	var jobs []job
+	grows := []int{0, 1, 9, 120, 130, 300}
+	if c.Tier == "thorough" {
+		grows = append(grows, 2, 118, 119, 121, 122, 125, 126, 127, 250, 1000, 70000)
+	}
+	for _, client := range []bool{false, true} {
+		for _, sh := range [][2]int{{16, 0}, {16, 5}, {16, 9}, {140, 0}, {140, 100}} {
+			for _, g := range grows {
+				jobs = append(jobs, job{client: client, raw: sh[0], n: sh[1], grow: g, extended: g%2 == 1})
+			}
+		}
+	}
+	results := make([][]string, len(jobs))
+	parallel(len(jobs), func(i int) {
+		jb := jobs[i]
+		off := 2
+		if jb.client {
+			off = 6
+		}
+		if jb.raw > 131 {
+			off += 2
+		}
+		if jb.n > jb.raw-off {
+			return
+		}
+		m := c.machine()
+		var obj *fold.Obj
+		var out []string
+		desc := fmt.Sprintf("[client=%v len(raw)=%d reserve=%d buffered=%d Grow(%d)]", jb.client, jb.raw, off, jb.n, jb.grow)
+		ps := m.Explore(f, func(mm *fold.Machine) []fold.Val {
+			cfg := writerCfg{rawLen: jb.raw, offset: off, n: jb.n, op: 2, client: jb.client}
+			if jb.extended {
+				cfg.extra = 4
+			}
+			obj, _ = newWriterObj(mm, L, cfg)
+			return []fold.Val{fold.Ref{O: obj}, fold.K(int64(jb.grow))}
+		}, func(mm *fold.Machine, p *fold.Path) {
+			raw, ok1 := mm.Load(fold.Ref{O: obj, Path: []int{L.raw}}).(fold.SliceV)
+			buf, ok2 := mm.Load(fold.Ref{O: obj, Path: []int{L.buf}}).(fold.SliceV)
+			if !ok1 || !ok2 {
+				out = append(out, "undecided: buffers are not concrete after Grow "+desc)
+				return
+			}
+			if fold.Show(mm.Load(fold.Ref{O: obj, Path: []int{L.n}})) != fmt.Sprint(jb.n) {
+				out = append(out, "Grow changes the number of buffered bytes "+desc)
+			}
+			free := int(buf.Len) - jb.n
+			if free < jb.grow {
+				out = append(out, fmt.Sprintf("after Grow only %d more bytes fit %s", free, desc))
+			}
+			if jb.raw-off-jb.n >= jb.grow {
+				if int(raw.Len) != jb.raw || int(buf.Len) != jb.raw-off {
+					out = append(out, "Grow reallocates although the bytes already fit "+desc)
+				}
+				return
+			}
+			newOff := int(raw.Len - buf.Len)
+			if buf.O != raw.O || buf.Lo != raw.Lo+int64(newOff) || buf.Lo+buf.Len != raw.Lo+raw.Len {
+				out = append(out, "after Grow buf is not the tail of raw behind the reservation "+desc)
+				return
+			}
+			// the reservation the new size calls for
+			mask := 0
+			if jb.client {
+				mask = 4
+			}
+			want := mask + 10
+			switch {
+			case int(raw.Len) <= 125+mask+2:
+				want = mask + 2
+			case int(raw.Len) <= 65535+mask+4:
+				want = mask + 4
+			}
+			if newOff != want {
+				out = append(out, fmt.Sprintf("after Grow to %d bytes %d are reserved for the header, the size calls for %d %s", raw.Len, newOff, want, desc))
+			}
+			if raw.Len&(raw.Len-1) != 0 {
+				out = append(out, fmt.Sprintf("the grown buffer has %d bytes, not a power of two (the writer pool only takes those) %s", raw.Len, desc))
+			}
+			got := laneNamesPlain(mm.Elems(fold.SliceV{O: buf.O, Path: buf.Path, Lo: buf.Lo, Len: int64(jb.n), Cap: int64(jb.n)}))
+			for k := 0; k < jb.n; k++ {
+				if got[k] != fmt.Sprintf("p%d", k) {
+					out = append(out, fmt.Sprintf("buffered byte %d is %s after Grow %s", k, got[k], desc))
+					break
+				}
+			}
+		})
+		for _, p := range ps {
+			if p.Abort != "" {
+				out = append(out, "undecided: "+p.Abort+" "+desc)
+			} else if p.Panic {
+				out = append(out, "Grow panics: "+fold.Show(p.PanicV)+" "+desc)
+			}
+		}
+		results[i] = out
+	})
+	var problems []string
+	for _, r := range results {
+		problems = append(problems, r...)
+	}
+	c.R.AddCells(len(jobs))
+	c.verdict(rule, rule+"/Grow", c.P.FuncPos(f), uniq(problems), fmt.Sprintf("%d (side, buffer, fill, n) combinations", len(jobs)))
+}
